@@ -155,7 +155,7 @@ def std_text(rng, plat):
 def run(tier, seed):
     rng = random.Random(seed * 122949829 + 1)
     mcs = [core.mc("MC_AceText"), core.mc("MC_PortSem"), core.mc("MC_AddrSem")]
-    n = 12000 if tier == "quick" else 150000
+    n = 12000 if tier == "quick" else 100000
     jobs = []
     for t in range(1, n + 1):
         plat = rng.choice(["ios", "nxos"])
@@ -167,21 +167,17 @@ def run(tier, seed):
             job["first"] = std_text(rng, plat) if (plat == "ios" and rng.random() < 0.5) else ace_text(rng, plat, vm)
             job["origin"] = "reassigned-line"
         jobs.append(job)
-    ev_lists = core.pmap(exec_job, jobs)
-    events = [e for evs in ev_lists for e in evs]
-    verdicts, vstats = core.validate("Trace_C01", events)
-    by_tid = {j["tid"]: (j, evs) for j, evs in zip(jobs, ev_lists)}
+    hits, vstats, n_events, samples = core.exec_validate(exec_job, jobs, "Trace_C01")
     out = []
-    for v in verdicts:
+    for v, j, evs in hits:
         if v["clause"].startswith("C06."):
             continue          # reported by C06's own check (same trace specification)
-        j, evs = by_tid[v["tid"]]
         out.append(dict(clause=v["clause"], features=dict(plat=j["plat"], vmajor=j["vmajor"]), case=j, events=evs))
     distinct = {json.dumps([j["plat"], j["vmajor"], j["port_nr"], j["protocol_nr"], j["line"].split(), j.get("first")]) for j in jobs}
     cov = dict(
         states=sum(m.get("states", 0) for m in mcs), transitions=sum(m.get("states", 0) for m in mcs),
         distinct_states=sum(m.get("distinct", 0) for m in mcs),
-        traces_validated_against_impl=len(jobs), evaluations=len(events), distinct_nontrivial=len(distinct),
+        traces_validated_against_impl=len(jobs), evaluations=n_events, distinct_nontrivial=len(distinct),
         rule="one trace = one Ace(line, platform, version, port_nr, protocol_nr) construction with the projection of every "
              "typed field, the expanded networks, the lexed rendered line, and two re-parses of the rendered line; "
              "lines are assembled from slot alternatives: optional sequence number (incl. 2^32-1), action, protocol as "
@@ -190,7 +186,7 @@ def run(tier, seed):
              "with every operator and 1..10 operands spelled as numbers or as names of the platform/version table, "
              "TCP flag words, log keywords, whitespace variants; standard-ACL lines on IOS; non-trivial = every case "
              "(each is a full entry); distinct = distinct (settings, token sequence)",
-        samples=[dict(job=jobs[i], events=ev_lists[i]) for i in (0, len(jobs) // 2, len(jobs) - 1)],
+        samples=[dict(job=j_, events=e_) for j_, e_ in samples],
         model_checking=mcs, trace_validation=vstats, exhaustive=False,
         checker_cmd="tlc MC_AceText (L_RoundTrip, L_NxosRejects), MC_PortSem, MC_AddrSem; tlc Trace_C01 (W=32, PMax=65535)",
     )
